@@ -402,7 +402,7 @@ fn run_n(mask: [u8; 4], nops: [usize; 4], nt: usize, lmax: usize, nmax: usize, h
 
 const U: usize = 12;
 
-// @verif family=TBMC hook=1 ignorefn=TProbeA quick=C01,C02,C04,C05,C09 timeout=900 mem=40
+// @verif family=TBMC hook=1 ignorefn=TProbeA quick=C01,C02,C04,C05,C09 timeout=2400 mem=40
 // @bounds kind=ConIterOfIter<usize,TProbe*> len<=2, all size hints; 2 threads x 1 next_id_and_value(); <=7 events per thread in the guessed trace + solo continuation of the last thread; all interleavings
 #[kani::proof]
 #[kani::unwind(12)]
@@ -410,7 +410,7 @@ fn t2_single_single() {
     run2([B_SINGLE, B_SINGLE], [1, 1], 2, 2, false);
 }
 
-// @verif family=TBMC hook=1 ignorefn=TProbeA quick=C07 timeout=1200 mem=40
+// @verif family=TBMC hook=1 ignorefn=TProbeA quick=C07 timeout=2400 mem=40
 // @bounds kind=ConIterOfIter<usize,TProbe*> len<=2; 2 threads x 1 next_id_and_value(); <=7 events per thread + solo continuation; happens-before from the recorded memory orderings (vector clocks), ticket exclusivity
 #[kani::proof]
 #[kani::unwind(12)]
@@ -418,7 +418,7 @@ fn t2_hb_single_single() {
     run2([B_SINGLE, B_SINGLE], [1, 1], 2, 2, true);
 }
 
-// @verif family=TBMC hook=1 ignorefn=TProbeA quick=C05,C04 thorough=C01,C09 timeout=1800 mem=40 optcov=both
+// @verif family=TBMC hook=1 ignorefn=TProbeA quick=C05,C04 thorough=C01,C09 timeout=2400 mem=40 optcov=both
 // @bounds kind=ConIterOfIter<usize,TProbe*> len<=1; thread 0: 1 x next_id_and_value(), thread 1 (last; continues on its own after the trace): 2 x next_id_and_value() (pulls after the end was reported); <=7 guessed events per thread; all interleavings
 #[kani::proof]
 #[kani::unwind(12)]
@@ -426,7 +426,7 @@ fn t2_single_single2() {
     run2([B_SINGLE, B_SINGLE], [1, 2], 1, 2, false);
 }
 
-// @verif family=TBMC hook=1 ignorefn=TProbeA quick=C06 thorough=C01,C09 timeout=1500 mem=40 optcov=both
+// @verif family=TBMC hook=1 ignorefn=TProbeA quick=C06 thorough=C01,C09 timeout=2400 mem=40 optcov=both
 // @bounds kind=ConIterOfIter<usize,TProbe*> len<=2; thread 0: skip_to_end then has_more/try_get_len, thread 1: 2 x next_id_and_value(); <=7 events per thread + solo continuation; all interleavings
 #[kani::proof]
 #[kani::unwind(12)]
@@ -434,7 +434,7 @@ fn t2_skip_single() {
     run2([B_SKIP | B_LEN, B_SINGLE], [2, 2], 2, 2, false);
 }
 
-// @verif family=TBMC hook=1 ignorefn=TProbeA quick=C11 thorough=C05 timeout=1500 mem=40 optcov=both|wait
+// @verif family=TBMC hook=1 ignorefn=TProbeA quick=C11 thorough=C05 timeout=2400 mem=40 optcov=both|wait
 // @bounds kind=ConIterOfIter<usize,TProbe*> len<=2, all size hints; thread 0: 2 x has_more/try_get_len, thread 1: 2 x next_id_and_value(); <=7 events per thread + solo continuation; all interleavings
 #[kani::proof]
 #[kani::unwind(12)]
@@ -442,7 +442,7 @@ fn t2_len_single() {
     run2([B_LEN, B_SINGLE], [2, 2], 2, 2, false);
 }
 
-// @verif family=TBMC hook=1 ignorefn=TProbeA quick=C03 thorough=C01,C02,C04,C09 timeout=1800 mem=40
+// @verif family=TBMC hook=1 ignorefn=TProbeA quick=C03 thorough=C01,C02,C04,C09 timeout=2400 mem=40
 // @bounds kind=ConIterOfIter<usize,TProbe*> len<=2; thread 0: buffered_iter(2).next(), thread 1: next_id_and_value(); <=7 events per thread + solo continuation; all interleavings
 #[kani::proof]
 #[kani::unwind(12)]
